@@ -51,6 +51,70 @@ def run_sized(spec, res):
              'prefetcht': lambda d: d.prefetch(2, 2, 't'),
              'concat': lambda d: d.concatenate(d), 'copy': lambda d: d.copy(),
              'map-prefetch1-batch': lambda d: d.map(Fn('g')).prefetch(1, 3).batch(2)}
+    # ---- stages that *drop* examples must not offer the input's length
+    class E1(Exception):
+        pass
+
+    class E2(Exception):
+        pass
+
+    def raiser(x):
+        from ..terms import sid
+        if sid(x) % 3 == 1:
+            raise E1(x)
+        if sid(x) % 5 == 2:
+            raise ld.core.FilterException(x)
+        return x
+    catch_args = {'true': True, 'class': E1, 'tuple': (E1, ld.core.FilterException),
+                  'filterexception-class': ld.core.FilterException,
+                  'exception': Exception, 'none': None, 'false': False}
+    droppers = {}
+    for cn, ca in catch_args.items():
+        droppers[f'prefetch1-catch-{cn}'] = lambda d, ca=ca: d.prefetch(
+            1, 2, catch_filter_exception=ca)
+        droppers[f'prefetcht-catch-{cn}'] = lambda d, ca=ca: d.prefetch(
+            2, 3, 't', catch_filter_exception=ca)
+    droppers['catch'] = lambda d: d.catch((E1, ld.core.FilterException))
+    droppers['filter'] = lambda d: d.filter(lambda x: x % 2 == 0)
+    droppers['filter-batch'] = lambda d: d.filter(lambda x: x % 2 == 0).batch(2)
+    droppers['unbatch'] = lambda d: d.batch(2).unbatch()
+    for n in range(0, 9):
+        for backing in ('dict', 'list'):
+            for dn, drop in droppers.items():
+                for wrap in ('none', 'map', 'batch'):
+                    case = {'n': n, 'backing': backing, 'stage': dn, 'wrap': wrap}
+                    src = ({f'k{i}': i for i in range(n)} if backing == 'dict'
+                           else list(range(n)))
+                    try:
+                        ds = ld.new(src)
+                        if 'catch' in dn:
+                            ds = ds.map(raiser)
+                        ds = drop(ds)
+                        if wrap == 'map':
+                            ds = ds.map(Fn('g'))
+                        elif wrap == 'batch':
+                            ds = ds.batch(2)
+                    except BaseException:
+                        res.count('sized_case_not_offered')
+                        continue
+                    try:
+                        ln = len(ds)
+                    except BaseException:
+                        res.count('length_not_offered')
+                        res.seen('length_not_offered_by', dn.split('-catch-')[0])
+                        continue
+                    try:
+                        cnt = sum(1 for _ in ds)
+                    except BaseException:
+                        res.count('sized_case_iteration_refused')
+                        continue
+                    res.case(('dropper', n, backing, dn, wrap), n >= 2)
+                    res.count('sized_nonindexable_checked')
+                    res.count('dropping_stage_sized_checked')
+                    if ln != cnt:
+                        res.violation('len-differs-from-iteration', case,
+                                      {'len': ln, 'iterated': cnt},
+                                      sig={'last_op': dn, 'indexable': False})
     for n in range(0, 9):
         for backing in ('dict', 'list'):
             for pn, pre in pres.items():
